@@ -47,7 +47,7 @@ CLAIMED = {
          "storage completion timing simulated over the real memory storage; messages enter through QXmppClient::messageReceived"),
  "C15": ("deterministic simulation with fault injection: two real ICE agents on a simulated datagram network (QUdpSocket entry points interposed at link time), every signalling step, delivery, loss of first transmissions, duplication, reordering and timer a scheduler decision, plus a forger without credentials; twin-run safety oracle (same schedule with/without forgeries must be indistinguishable), bounded liveness, priority and data-integrity oracles after the faults stop",
          "seeded search over schedules, loss patterns and forged datagrams; a clean batch is evidence, not proof",
-         "UDP, clock, timers, randomness and signalling are simulated; host candidates only (no STUN/TURN server)"),
+         "UDP (with optional full-cone NAT and a simulated STUN server), clock, timers, randomness and signalling are simulated; no TURN relay"),
  "C19": ("deterministic simulation with fault injection: one in-band transfer per run between the real transfer manager and a scripted peer; seeded block size, file size (block and 16-bit counter boundaries), announcement and one fault on the block sequence, the link or the output device; success => byte-exact copy, no fault => success",
          "seeded search over (size, block size, announcement, fault kind and position, peer policy) through the real receiver and sender; a clean batch is evidence, not proof",
          "transport, server relay and the remote party are simulated; SOCKS5 bytestreams are outside the simulation (shared verification path covered through in-band transfers)"),
